@@ -88,9 +88,25 @@ def compose(r):
     conj = r.sample(['a = {P}', 'b IN ({P}, {P})', 'c BETWEEN {P} AND {P}', 'd > {P} + 1', 'f({P}) = e', 'NOT x = {P}', '(y = {P} OR y = {P})',
                      'a IN (SELECT x FROM int1.t2 WHERE y = {P})', 'CASE {P} WHEN 1 THEN a ELSE {P} END = 2'], r.randint(1, 3))
     tg = r.sample(['a', '{P} AS k', 'b + {P}', 'coalesce(c, {P})', 'CASE WHEN d = {P} THEN {P} END'], r.randint(1, 3))
-    s = f'SELECT {", ".join(tg)} FROM int1.t1 WHERE ' + ' AND '.join(conj)
-    if r.random() < 0.3:
+    # every clause may carry placeholders, in any combination (select list + FROM sub-select + ON + WHERE + HAVING + ORDER BY, after a CTE)
+    frm = r.choice(['int1.t1', 'int1.t1', 'int1.t1 AS t', '(SELECT a, b, c, d, e, x, y FROM int1.t1 WHERE b = {P}) AS s',
+                    '(SELECT a, b, c, d, e, x, y FROM int1.t1 WHERE b = {P} AND c IN ({P}, {P})) AS s',
+                    'int1.t1 AS t JOIN int1.t2 AS u ON t.id = u.id AND u.x = {P}',
+                    'int1.t1 AS t LEFT JOIN int1.t2 AS u ON u.x = {P} AND t.id = u.id JOIN int1.t3 AS v ON v.id = t.id AND v.z > {P}',
+                    '(SELECT a, b, c, d, e, x, y, id FROM int1.t1 WHERE b = {P}) AS s JOIN (SELECT id FROM int1.t2 WHERE c = {P}) AS s2 ON s.id = s2.id',
+                    'int1.t1 AS t JOIN (SELECT id FROM int1.t2 WHERE c = {P}) AS s2 ON t.id = s2.id AND s2.id > {P}'])
+    s = f'SELECT {", ".join(tg)} FROM {frm} WHERE ' + ' AND '.join(conj)
+    k = r.random()
+    if k < 0.3:
         s += ' ORDER BY a LIMIT 3'
+    elif k < 0.5:
+        s += ' GROUP BY a HAVING count(b) > {P}' + r.choice(['', ' ORDER BY a', ' ORDER BY coalesce(a, {P})'])
+    elif k < 0.6:
+        s += ' ORDER BY b + {P}, a'
+    if r.random() < 0.2:
+        s = 'WITH c9 AS (SELECT a FROM int1.t2 WHERE y = {P}) ' + s
+    elif r.random() < 0.15:
+        s = s + ' UNION ' + r.choice(['SELECT {P} FROM int1.t2 WHERE y = {P}', 'SELECT a FROM (SELECT a FROM int1.t2 WHERE y = {P}) AS z'])
     return ('composed', s)
 
 
